@@ -74,7 +74,7 @@ def DateTime.fromNode (fp : FloatParse) (node : XNode) : Option (Option DateTime
   | some text =>
     let gps ← fp.f64 text
     match node.children.find? (fun n => n.hasTagName "isAtomicClockReferenced" && n.attr "type" == some "Integer") with
-    | none => pure none
+    | none => pure (some ⟨gps, false⟩)   -- the flag is optional
     | some an => pure (some ⟨gps, parseI64 (rustTrim ((an.textOf).getD "0")) == some 1⟩)
 
 def optDateTime (fp : FloatParse) (parent : XNode) (tag : String) : Option (Option DateTime) := do
